@@ -60,16 +60,22 @@ void vm_init(VmState *vm, const NvmModule *module) {
     vm_heap_init(&vm->heap);
 #ifdef NANOLANG_VERIF
     { const char *f = getenv("NLVERIF_FUEL"); if (f) vm->verif_fuel = strtoull(f, NULL, 10); }
+    { const char *ev = getenv("NLVERIF_AUDIT"); vm->verif_audit_every = ev ? atol(ev) : 0;
+      const char *lp = getenv("NLVERIF_AUDIT_LOG");
+      if (vm->verif_audit_every > 0 && lp && lp[0]) vm->verif_audit_log = fopen(lp, "a"); }
 #endif
 }
 
 #ifdef NANOLANG_VERIF
+void verif_vm_audit(VmState *vm, const char *where);
+static void verif_audit_summary(VmState *vm);
 static void verif_opstats_dump(VmState *vm);
 #endif
 
 void vm_destroy(VmState *vm) {
 #ifdef NANOLANG_VERIF
     verif_opstats_dump(vm);
+    if (vm->verif_audit_every > 0) { verif_vm_audit(vm, "destroy"); verif_audit_summary(vm); }
 #endif
     /* Release all globals */
     for (uint32_t i = 0; i < vm->global_count; i++) {
@@ -177,6 +183,7 @@ static inline VmTrap trap_error(VmState *vm, VmResult err, const char *fmt, ...)
  * external operation (I/O, FFI, halt) or completes / errors.
  * ======================================================================== */
 
+
 #ifdef NANOLANG_VERIF
 /* ---- verification hook H1: executed-opcode histogram, appended to $NLVERIF_OPSTATS ---- */
 static void verif_opstats_dump(VmState *vm) {
@@ -188,6 +195,84 @@ static void verif_opstats_dump(VmState *vm) {
     for (int i = 0; i < 256; i++) if (vm->verif_opcount[i]) fprintf(f, " %d:%llu", i, (unsigned long long)vm->verif_opcount[i]);
     fprintf(f, "\n");
     fclose(f);
+}
+
+/* ---- verification hook H2: in-degree audit of the VM heap ----
+ * Walks the roots (operand stack incl. locals, globals, frame closures) and the
+ * containers reachable from them, and checks for every reached object that it is
+ * still registered (not freed) and that ref_count >= in-degree. */
+typedef struct { void *obj; uint32_t indeg; uint8_t tag; } VAEnt;
+typedef struct { VAEnt *e; uint32_t cap, count; void **work; uint32_t wcap, wcount; } VAMap;
+#define VA_OUT(vm) ((vm)->verif_audit_log ? (FILE *)(vm)->verif_audit_log : stderr)
+static uint32_t va_hash(const void *p) { uint64_t x = (uint64_t)(uintptr_t)p; x ^= x >> 33; x *= 0xff51afd7ed558ccdULL; x ^= x >> 33; return (uint32_t)x; }
+static VAEnt *va_get(VAMap *m, void *obj, bool *fresh) {
+    if ((m->count + 1) * 2 > m->cap) {
+        uint32_t oc = m->cap; VAEnt *old = m->e;
+        m->cap = oc ? oc * 2 : 256; m->e = calloc(m->cap, sizeof(VAEnt));
+        for (uint32_t i = 0; i < oc; i++) if (old[i].obj) { uint32_t j = va_hash(old[i].obj) & (m->cap - 1); while (m->e[j].obj) j = (j + 1) & (m->cap - 1); m->e[j] = old[i]; }
+        free(old);
+    }
+    uint32_t i = va_hash(obj) & (m->cap - 1);
+    while (m->e[i].obj && m->e[i].obj != obj) i = (i + 1) & (m->cap - 1);
+    *fresh = (m->e[i].obj == NULL);
+    if (*fresh) { m->e[i].obj = obj; m->count++; }
+    return &m->e[i];
+}
+static void va_edge(VmState *vm, VAMap *m, NanoValue v, const char *via, const char *where) {
+    if (!val_is_heap_obj(v) && v.tag != TAG_FUNCTION) return;
+    void *p = v.as.obj;
+    if (!p) return;
+    if (!verif_reg_has(&vm->heap, p)) {
+        if (v.tag == TAG_FUNCTION && (uintptr_t)p < 0x10000) return; /* plain function index */
+        vm->verif_audit_viol++;
+        fprintf(VA_OUT(vm), "VERIF-AUDIT kind=dangling tag=%u via=%s where=%s ip=%u fn=%u\n", v.tag, via, where, vm->ip, vm->current_fn);
+        return;
+    }
+    bool fresh; VAEnt *e = va_get(m, p, &fresh);
+    e->indeg++; e->tag = v.tag;
+    if (fresh) {
+        if (m->wcount >= m->wcap) { m->wcap = m->wcap ? m->wcap * 2 : 256; m->work = realloc(m->work, m->wcap * sizeof(void *)); }
+        m->work[m->wcount++] = p;
+    }
+}
+void verif_vm_audit(VmState *vm, const char *where) {
+    VAMap m = {0};
+    for (uint32_t i = 0; i < vm->stack_size; i++) va_edge(vm, &m, vm->stack[i], "stack", where);
+    for (uint32_t i = 0; i < vm->global_count; i++) va_edge(vm, &m, vm->globals[i], "global", where);
+    for (uint32_t i = 0; i < vm->frame_count; i++) if (vm->frames[i].closure) { NanoValue cv = val_closure(vm->frames[i].closure); va_edge(vm, &m, cv, "frame", where); }
+    while (m.wcount > 0) {
+        void *p = m.work[--m.wcount];
+        VmHeapHeader *h = (VmHeapHeader *)p;
+        switch (h->obj_type) {
+        case TAG_ARRAY: { VmArray *a = p; for (uint32_t i = 0; i < a->length; i++) va_edge(vm, &m, a->elements[i], "array", where); break; }
+        case TAG_STRUCT: { VmStruct *s = p; for (uint32_t i = 0; i < s->field_count; i++) va_edge(vm, &m, s->fields[i], "struct", where); break; }
+        case TAG_UNION: { VmUnion *u = p; for (uint32_t i = 0; i < u->field_count; i++) va_edge(vm, &m, u->fields[i], "union", where); break; }
+        case TAG_TUPLE: { VmTuple *t = p; for (uint32_t i = 0; i < t->count; i++) va_edge(vm, &m, t->elements[i], "tuple", where); break; }
+        case TAG_FUNCTION: { VmClosure *c = p; for (uint32_t i = 0; i < c->capture_count; i++) va_edge(vm, &m, c->captures[i], "closure", where); break; }
+        case TAG_HASHMAP: { VmHashMap *hm = p; for (uint32_t b = 0; b < hm->bucket_count; b++) for (VmHMEntry *en = hm->buckets[b]; en; en = en->next) { va_edge(vm, &m, en->key, "hmkey", where); va_edge(vm, &m, en->value, "hmval", where); } break; }
+        default: break;
+        }
+    }
+    for (uint32_t i = 0; i < m.cap; i++) if (m.e[i].obj) {
+        VmHeapHeader *h = (VmHeapHeader *)m.e[i].obj;
+        if (m.e[i].indeg > vm->verif_audit_maxdeg) vm->verif_audit_maxdeg = m.e[i].indeg;
+        if (h->ref_count < m.e[i].indeg) {
+            vm->verif_audit_viol++;
+            fprintf(VA_OUT(vm), "VERIF-AUDIT kind=undercount type=%u rc=%u indeg=%u where=%s ip=%u fn=%u\n",
+                    h->obj_type, h->ref_count, m.e[i].indeg, where, vm->ip, vm->current_fn);
+        }
+    }
+    vm->verif_audits++; vm->verif_audit_objs += m.count;
+    if (vm->heap.verif_reg && vm->heap.verif_reg->count > vm->verif_audit_peak_live) vm->verif_audit_peak_live = vm->heap.verif_reg->count;
+    free(m.e); free(m.work);
+}
+static void verif_audit_summary(VmState *vm) {
+    VerifReg *r = vm->heap.verif_reg;
+    if (r && r->n_bad_unreg) fprintf(VA_OUT(vm), "VERIF-AUDIT kind=double-release count=%llu site=%s\n", (unsigned long long)r->n_bad_unreg, r->last_bad_site ? r->last_bad_site : "?");
+    fprintf(VA_OUT(vm), "VERIF-AUDIT kind=summary audits=%llu objs_seen=%llu maxdeg=%llu violations=%llu registered=%llu unregistered=%llu live=%u peak_live=%llu bad_unreg=%llu\n",
+            (unsigned long long)vm->verif_audits, (unsigned long long)vm->verif_audit_objs, (unsigned long long)vm->verif_audit_maxdeg, (unsigned long long)vm->verif_audit_viol,
+            (unsigned long long)(r ? r->n_reg : 0), (unsigned long long)(r ? r->n_unreg : 0), r ? r->count : 0, (unsigned long long)vm->verif_audit_peak_live, (unsigned long long)(r ? r->n_bad_unreg : 0));
+    if (vm->verif_audit_log) { fclose((FILE *)vm->verif_audit_log); vm->verif_audit_log = NULL; }
 }
 #endif
 
@@ -202,6 +287,9 @@ VmTrap vm_core_execute(VmState *vm) {
 
     /* Main dispatch loop */
     while (vm->ip < code_end) {
+#ifdef NANOLANG_VERIF
+        if (vm->verif_audit_every > 0 && (vm->verif_audit_tick++ % (uint64_t)vm->verif_audit_every) == 0) verif_vm_audit(vm, "step");
+#endif
         DecodedInstruction instr;
         uint32_t consumed = isa_decode(code + vm->ip, code_end - vm->ip, &instr);
         if (consumed == 0) {
